@@ -122,11 +122,14 @@ def parseNbr (w : World) (n : Nbr) : World :=
 /-! ### stages (a)–(c): `Configuration.reload()` -/
 
 inductive Fault where
+  | firstLine             -- the very first statement of the file is refused: rolled back, nothing was
+                          --   parsed, no section was entered (the parser stays usable)
   | syntax (k : Nat)      -- `parse_section` returns False after `k` neighbors were completed: rolled back
   | exception (k : Nat)   -- a value parser raises something else than ValueError after `k` neighbors:
                           --   caught by `reload()`, which does not roll back
   | missingFile           -- `return False` straight after `_clear()`
-  | validation            -- `validate()` fails after `_commit_reload()`
+  -- (a `validate()` error after the commit is NOT a failure path: `_reload` ends with
+  --  `check = self.validate(); if check: return check; return True`, i.e. True either way)
 deriving DecidableEq, Repr
 
 def toDict (ns : List Nbr) : AList Nat Nbr := ns.foldl (fun d n => AList.insert n.name n d) []
@@ -138,9 +141,9 @@ def cfgReload (w : World) (c : Config) (f : Option Fault) : World × Bool :=
   if w.dirty then (w, false)       -- the scope is still inside the section that failed: the first section is refused
   else match f with
   | some .missingFile => ({ w with procs := [], nbrs := [] }, false)
+  | some .firstLine => ({ w with procs := [] }, false)
   | some (.exception k) => ({ parseAll w (c.nbrs.take k) with procs := [], nbrs := [], dirty := true }, false)
   | some (.syntax k) => ({ parseAll w (c.nbrs.take k) with procs := c.procs, dirty := true }, false)
-  | some .validation => ({ parseAll w c.nbrs with procs := c.procs, nbrs := toDict c.nbrs }, false)
   | none => ({ parseAll w c.nbrs with procs := c.procs, nbrs := toDict c.nbrs }, true)
 
 /-! ### stage (d): `Reactor.reload()` -/
@@ -240,6 +243,13 @@ def World.tick (w : World) (a : Nat) : World × List Ev :=
       let r := s1.step .next
       (w.setRib a r.1, r.2)
     else (w, [])
+  | _, _ => (w, [])
+
+/-- Transmission steps of an established peer (`start` / `next` of M-Rib), e.g. the rest of the
+    `_main` iteration a reload interrupted. -/
+def World.xmit (w : World) (a : Nat) (ops : List Op) : World × List Ev :=
+  match AList.lookup a w.peers, AList.lookup a w.ribs with
+  | some p, some s => if p.up then (w.setRib a (s.run ops).1, (s.run ops).2) else (w, [])
   | _, _ => (w, [])
 
 /-- Everything an established peer still sends. -/
